@@ -159,7 +159,7 @@ def restStages (cfg : Cfg) (ord : List Path) (rs skc : Bool) : List Stage :=
 
 theorem stages_eq (cfg : Cfg) (ord : List Path) (rs sk : Bool) :
     stages fixed cfg ord rs sk = paramsStage rs :: restStages cfg ord rs (sk || cfg.fromSaves) := by
-  simp [stages, restStages, fixed]
+  simp [stages, restStages, fixed, unalOK]
 
 /-- from a state satisfying the invariant, everything after `.params` completes, keeps the invariant at every
     prefix and leaves every final file complete and correct -/
